@@ -59,8 +59,8 @@ CHECKS['C03'] = {
     'verus_units': ['eval', 'select', 'mapping'],
     'clause_prefixes': ['c03', 'value.', 'engine.', 'row.', 'select.'],
     'technique': 'contract-based deductive verification (Verus): arms of ExpressionExecutionEngine::evaluate extracted from /repo and proved against a recursive specification sem_eval written from the property text; structural induction through the contract of evaluate',
-    'claim': 'Proof, for all expression trees, rows and values, that the extracted arms of evaluate (literal, column access, comparison, IS, arithmetic, unary, AND/OR, IN/NOT IN, subscript, CASE) return exactly sem_eval(expression, row) - comparisons by value and false on NULL, NULL-propagating arithmetic with overflow and division by zero as errors, two-valued logic, IN as OR of =, first true CASE branch, 1-based subscripts - or an error when sem_eval has no value.',
-    'note': 'Trusted: derived comparison of Value (uninterpreted value_cmp; its laws are C16), IEEE and chrono arithmetic as uninterpreted total functions, ValueType::parse, closure/loop contracts spliced by ordinal (rule E5). Unproved arms: FunctionCall, TypeConversion, Aggregate lookup; lowering of parse trees and result column names are not covered.',
+    'claim': 'Proof, for all expression trees, rows and values, that the extracted arms of evaluate (literal, column access, comparison, IS, arithmetic, unary, AND/OR, IN/NOT IN, subscript, CASE, aggregate reference) return exactly sem_eval(expression, row) - comparisons by value and false on NULL, NULL-propagating arithmetic with overflow and division by zero as errors, two-valued logic, IN as OR of =, first true CASE branch, 1-based subscripts - or an error when sem_eval has no value.',
+    'note': 'Trusted: derived comparison of Value (uninterpreted value_cmp; its laws are C16), IEEE and chrono arithmetic as uninterpreted total functions, ValueType::parse, closure/loop contracts spliced by ordinal (rule E5). Unproved arms: FunctionCall, TypeConversion; lowering of parse trees and result column names are not covered.',
     'level': 'proof',
     'explanation': 'Each match arm of evaluate is emitted as its own function (rule E3) whose body is the arm text from /repo; recursive calls see the full contract of evaluate, so the arms together are a proof by structural induction that evaluate refines sem_eval.',
     'trusted': COMMON_TRUST + [
@@ -68,7 +68,7 @@ CHECKS['C03'] = {
         'f64 arithmetic and chrono DateTime/Duration arithmetic are uninterpreted total functions (chrono range overflow is not modelled)',
         'termination of evaluate (recursion on strict sub-expressions) is not checked: evaluate is external_body for its callers',
     ],
-    'unproved': ['evaluate arms FunctionCall (all functions), TypeConversion, Aggregate', 'parser_tree_converter lowering, projection naming'],
+    'unproved': ['evaluate arms FunctionCall (all functions), TypeConversion', 'parser_tree_converter lowering, projection naming'],
 }
 CHECKS['C09'] = {
     'verus_units': ['eval', 'follow', 'select', 'engine', 'extract', 'parser', 'tokenizer', 'converter', 'executor', 'aggregate', 'aggdispatch', 'aggresult', 'join', 'joinload', 'mapping'],
@@ -80,7 +80,7 @@ CHECKS['C09'] = {
     'level': 'proof',
     'explanation': 'Verus generates, for every extracted function, the obligations that each arithmetic operation fits its type, each divisor is non-zero, each index is in bounds and each callee precondition (including `requires false` of the unimplemented!/panic! stand-in) holds; this check counts exactly those.',
     'trusted': COMMON_TRUST,
-    'unproved': ['OutputPrinter::print', 'accept_group', 'Parser::parse_* grammar functions, parser_tree_converter', 'ValueType::parse (chrono, Local time zone)', 'Value::json_value', 'evaluate arms FunctionCall / TypeConversion'],
+    'unproved': ['OutputPrinter::print', 'Parser::parse_* grammar functions, parser_tree_converter', 'ValueType::parse (chrono, Local time zone)', 'Value::json_value', 'evaluate arms FunctionCall / TypeConversion'],
 }
 
 CHECKS['C08'] = {
@@ -98,7 +98,7 @@ CHECKS['C08'] = {
     'level': 'proof',
     'explanation': 'The abstract DISTINCT memory is the sequence of remembered tuples; membership is pointwise value_eq. The contract of execute is stated over that view and over sem_eval of the projections.',
     'trusted': COMMON_TRUST + ['fnv::FnvHashSet contains/insert as a mathematical set over Eq classes of Vec<Value> (assumed; relies on C16 laws)'],
-    'unproved': ['accept_group (HAVING evaluation)', 'iter_mut loop headers of the PERCENTILE refresh'],
+    'unproved': ['extract_having_aggregates (visitor closure)', 'iter_mut loop headers of the PERCENTILE refresh'],
 }
 
 CHECKS['C07'] = {
@@ -127,12 +127,12 @@ CHECKS['C11'] = {
     'verus_units': ['engine', 'aggdispatch', 'aggresult'],
     'clause_prefixes': ['c11'],
     'technique': 'contract-based deductive verification (Verus): ExecutionEngine::execute dispatch, execution_config, ExecutionConfig constructors, AggregateExecutionEngine::execute extracted from /repo; induction lemma over the per-line contracts',
-    'claim': 'Proof (dispatch, cell refresh, row assembly) that with {update,result} each line folds into the aggregation state exactly as with {update} alone and the table shown is the table of the state after that line, that {result} alone shows the table of the current state without changing it, and (lemma) that the state after k lines is therefore identical in follow and batch mode. Inside execute_result two parts are proved: the refresh of a PERCENTILE cell (the body of the inner loop, rule E3c) overwrites exactly that cell with the value the aggregator shows now and running aggregates touch nothing, and the row assembly builds the table from the per-group cells with a DISTINCT memory that is fresh for every table (unit aggresult). That the remaining parts of execute_result (loop headers over the group maps, extract_result_rows_by_column, HAVING) are functions of the aggregation state is assumed.',
-    'note': 'ASSUMED, not proved: the parts of AggregateExecutionEngine::execute_result that are not extracted (iter_mut loop headers, extract_result_rows_by_column, accept_group) are functions of the aggregation state and do not modify it. Non-aggregate statements: rows emitted for line k depend on line k and the DISTINCT memory only (select unit).',
+    'claim': 'Proof (dispatch, cell refresh, row assembly) that with {update,result} each line folds into the aggregation state exactly as with {update} alone and the table shown is the table of the state after that line, that {result} alone shows the table of the current state without changing it, and (lemma) that the state after k lines is therefore identical in follow and batch mode. Inside execute_result two parts are proved: the refresh of a PERCENTILE cell (the body of the inner loop, rule E3c) overwrites exactly that cell with the value the aggregator shows now and running aggregates touch nothing, and the row assembly builds the table from the per-group cells with a DISTINCT memory that is fresh for every table (unit aggresult). The columns (extract_result_rows_by_column) and HAVING (accept_group) are proved to be functions of the group cells; that the iter_mut loop headers of the refresh visit every aggregator once is assumed.',
+    'note': 'ASSUMED, not proved: the parts of AggregateExecutionEngine::execute_result that are not extracted (iter_mut loop headers, extract_having_aggregates) are functions of the aggregation state and do not modify it; result_wf (key arity, validated group-key columns) holds for the state. Non-aggregate statements: rows emitted for line k depend on line k and the DISTINCT memory only (select unit).',
     'level': 'proof',
     'explanation': 'Dispatch in ExecutionEngine::execute and AggregateExecutionEngine::execute (unit engine) over an abstract state machine (agg_step, agg_table); execute_result/refresh-cell (unit aggdispatch) and the row loop of execute_result (unit aggresult) discharge the part of "agg_table is a function of the state" that lies in extracted code.',
     'trusted': COMMON_TRUST + ['AggregateExecutionEngine::execute_update / execute_result as an abstract state machine (agg_step, agg_table)'],
-    'unproved': ['accept_group purity', 'iteration order and coverage of the iter_mut loops in execute_result'],
+    'unproved': ['extract_having_aggregates (visitor closure)', 'iteration order and coverage of the iter_mut loops in execute_result'],
 }
 
 CHECKS['C01'] = {
@@ -208,12 +208,12 @@ CHECKS['C04'] = {
     'verus_units': ['aggregate', 'aggdispatch', 'aggresult'],
     'clause_prefixes': ['c04', 'value.modify', 'value.map-numeric', 'value.default'],
     'technique': 'contract-based deductive verification (Verus): GroupAggregator::default / update (all arms) / is_null, ensure_sum_fits and Value::modify_same_type_numeric_nullable / map_numeric extracted from /repo against step functions written from the property text',
-    'claim': 'Proof (fold kernel and per-group dispatch) for all states and values that one update step of each running aggregate is exactly the documented step and that update_aggregate folds a row into the cell of ITS group and aggregate index only (get_group: an existing cell is returned as it is, the default is computed only for a missing cell; COUNT / COUNT(DISTINCT) add one exactly for qualifying rows; MIN / MAX by value order; NULL arguments never wipe an accumulated value; ARRAY_AGG appends in arrival order; STRING_AGG joins with the delimiter); execute_update leaves the state untouched for rows that fail WHERE. Step level: SUM / AVG / STDDEV-VARIANCE bookkeeping add the value exactly or report an error (never wrap), the first value only initialises, AVG shows sum/count, PERCENTILE collects every value, BOOL_AND / BOOL_OR combine two-valued, COUNT(DISTINCT) counts a value only at its first occurrence; the unimplemented!() arms of default are unreachable under its precondition. Result path (unit aggresult): extract_result_rows_by_column builds one named column per select-list aggregate with exactly one value per group in key order, each taken from that group (its key component, or its own cell through the select-list expression; COUNT 0 / NULL when no row of the group qualified), and execute_result zips the columns position by position into rows, applies HAVING per group and DISTINCT among the kept rows. Known findings: a group none of whose aggregates got a qualifying row (COUNT(c), STRING_AGG(c) with c NULL throughout) is missing from the result. update_aggregates (unit aggdispatch): the group key of a row is the values of its GROUP BY expressions on that row (map_result_vec is verified: one result per element in order, or an error), a row without a key is an error that aggregates nothing, and every select-list aggregate is dispatched exactly once, in order, under its own index for that key (fold_select_list); execute_update folds exactly the rows that pass WHERE. PERCENTILE (update_value) shows the value at rank min(floor(p*n), n-1) of the sorted values of the group, never one past the end, and the refresh of a shown cell overwrites exactly that cell. NOT decided: the HAVING aggregates inside update_aggregates (closure over &mut self, stubbed), accept_group (HAVING evaluation is a stand-in), and that the dispatch match of update_aggregate selects the proved arm.',
+    'claim': 'Proof (fold kernel and per-group dispatch) for all states and values that one update step of each running aggregate is exactly the documented step and that update_aggregate folds a row into the cell of ITS group and aggregate index only (get_group: an existing cell is returned as it is, the default is computed only for a missing cell; COUNT / COUNT(DISTINCT) add one exactly for qualifying rows; MIN / MAX by value order; NULL arguments never wipe an accumulated value; ARRAY_AGG appends in arrival order; STRING_AGG joins with the delimiter); execute_update leaves the state untouched for rows that fail WHERE. Step level: SUM / AVG / STDDEV-VARIANCE bookkeeping add the value exactly or report an error (never wrap), the first value only initialises, AVG shows sum/count, PERCENTILE collects every value, BOOL_AND / BOOL_OR combine two-valued, COUNT(DISTINCT) counts a value only at its first occurrence; the unimplemented!() arms of default are unreachable under its precondition. Result path (unit aggresult): extract_result_rows_by_column builds one named column per select-list aggregate with exactly one value per group in key order, each taken from that group (its key component, or its own cell through the select-list expression; COUNT 0 / NULL when no row of the group qualified), and execute_result zips the columns position by position into rows, applies HAVING per group and DISTINCT among the kept rows. Known findings: a group none of whose aggregates got a qualifying row (COUNT(c), STRING_AGG(c) with c NULL throughout) is missing from the result. update_aggregates (unit aggdispatch): the group key of a row is the values of its GROUP BY expressions on that row (map_result_vec is verified: one result per element in order, or an error), a row without a key is an error that aggregates nothing, and every select-list aggregate is dispatched exactly once, in order, under its own index for that key (fold_select_list); execute_update folds exactly the rows that pass WHERE. PERCENTILE (update_value) shows the value at rank min(floor(p*n), n-1) of the sorted values of the group, never one past the end, and the refresh of a shown cell overwrites exactly that cell. HAVING (accept_group) is evaluated on the group\'s own key parts (by GROUP BY position) and its own cells (select-list count + j; COUNT 0 / NULL when missing), and an aggregate inside an expression (evaluate, Aggregate arm) denotes exactly the value bound under its name. NOT decided: the HAVING aggregates inside update_aggregates (closure over &mut self, stubbed), extract_having_aggregates (visitor closure), and that the dispatch match of update_aggregate selects the proved arm.',
     'note': 'Trusted: HashSet<Value> as a set under Value equality (VValueSet), f64 arithmetic and chrono Duration arithmetic as uninterpreted functions, the variance formula closure and the INTERVAL squaring closure are stubbed (assumed). The IEEE product and the float-to-usize cast of the PERCENTILE rank are an uninterpreted function (percentile_position).',
     'level': 'proof',
     'explanation': 'sum_step etc. are the semantic steps; C15 lemmas lift them to order-insensitivity.',
     'trusted': COMMON_TRUST + ['std HashSet<Value> / BTreeMap / HashMap behaviour', 'float and interval arithmetic uninterpreted'],
-    'unproved': ['HAVING aggregates in update_aggregates (visit closure, stubbed branch)', 'accept_group (HAVING evaluation)', 'update_aggregate as a whole is linked to its arms only by reading (dispatch match is not extracted)', 'Vec<Value>::sort (sorted permutation stand-in)', 'iter_mut loop headers of execute_result'],
+    'unproved': ['HAVING aggregates in update_aggregates (visit closure, stubbed branch)', 'extract_having_aggregates (visitor closure)', 'update_aggregate as a whole is linked to its arms only by reading (dispatch match is not extracted)', 'Vec<Value>::sort (sorted permutation stand-in)', 'iter_mut loop headers of execute_result'],
 }
 CHECKS['C15'] = {
     'verus_units': ['aggregate', 'aggdispatch'],
